@@ -2,6 +2,7 @@ package server
 
 import (
 	"encoding/base64"
+	"errors"
 	"sync"
 	"sync/atomic"
 	"time"
@@ -13,6 +14,8 @@ import (
 )
 
 const defaultUploadInterval = 1 * time.Minute
+
+var ErrNonPositiveRate = errors.New("UpRate and DownRate must be positive")
 
 // userPanel is used to authenticate new users and book keep active users
 type userPanel struct {
@@ -71,6 +74,10 @@ func (panel *userPanel) GetUser(UID []byte) (*ActiveUser, error) {
 	upRate, downRate, err := panel.Manager.AuthenticateUser(UID)
 	if err != nil {
 		return nil, err
+	}
+	if upRate <= 0 || downRate <= 0 {
+		// a rate limiter cannot be built from a non-positive rate (ratelimit panics)
+		return nil, ErrNonPositiveRate
 	}
 	valve := mux.MakeValve(upRate, downRate)
 	user := &ActiveUser{
